@@ -19,6 +19,7 @@ class C01(C.ProgramDiff):
     assumptions = ['CPython 3.12 of /venv', 'reference interpreter R (validated by conformance corpus and second engine)',
                    'STO unifications and calls of non-callable terms are discarded as unspecified']
     cases = {'quick': 2400, 'thorough': 40000}
+    split_scripts = True
     cfg = gen.with_cfg(control=frozenset())
 
 
